@@ -236,6 +236,7 @@ def check_shape(cx, facts, rep):
         else:
             rep.bad('SHAPE', fn.qname, ctor, 'Debug with nothing to print and no name is not refused (%s under `name is None`)' % ctor, fn.file, fn.line)
     check_need_name_siblings(cx, facts, rep)
+    check_has_fields_flag(cx, facts, rep)
     rep.floor('SHAPE', 12)
 
 
@@ -263,6 +264,46 @@ def check_need_name_siblings(cx, facts, rep):
                 'one kind of variant is refused (or accepted) where its siblings are not' % ' / '.join(sorted(term_s(k, 40) for k in subjects)), fn.file, odd[1][0].line)
     elif subjects:
         rep.ok('SHAPE', fn.qname + '|need-name refusals agree on the name tested', {'refusals': sum(len(v) for v in subjects.values())})
+
+
+def check_has_fields_flag(cx, facts, rep):
+    """Debug with "nothing to show and no name" is refused through a flag that says whether any field is shown.  The flag must be
+    set for exactly the shown fields: in each field loop `flag = true` happens under "this field is not ignored" and under nothing
+    else (set for ignored fields too, an all-ignored nameless value is accepted and prints nothing; set only for fields without a
+    `method`, a value whose shown fields all have one is refused)"""
+    from ..terms import term_s
+    for shape in ('struct', 'enum'):
+        fn = handler_of(cx, 'Debug', shape)
+        if fn is None:
+            continue
+        fw = cx.fw(fn)
+        tm = cx.gm.terms_of(fw)
+        flags = {}
+        for ev in fw.events:
+            if ev.kind == 'exit' and ev.how == 'return' and any(c_ in es(ev.value or {}) for c_ in ('unit_struct_need_name', 'unit_variant_need_name')):
+                for a in facts.atoms(ev.ctx, fw):
+                    if a[0] == 'truth' and a[2] is False and isinstance(a[1], tuple) and a[1][0] == 'var':
+                        d = tm.def_by_id(a[1][1])
+                        if d is not None:
+                            flags[d.id] = d
+        for d in flags.values():
+            n = 0
+            for asg in d.assigns:
+                if es(asg.value) != 'true':
+                    rep.bad('SHAPE', fn.qname, 'shown-fields-flag', 'the "some field is shown" flag `%s` is assigned `%s`' % (d.name, es(asg.value)[:40]), fn.file, asg.line)
+                    continue
+                at = facts.atoms(asg.ctx, fw)
+                loops = [i for i, a in enumerate(at) if a[0] == 'loop']
+                inner = at[loops[-1] + 1:] if loops else None
+                ok = inner is not None and len(inner) == 1 and inner[0][0] == 'truth' and inner[0][2] is False and isinstance(inner[0][1], tuple) \
+                    and inner[0][1][0] == 'field' and inner[0][1][2] == 'ignore'
+                n += 1
+                if ok:
+                    rep.ok('SHAPE', '%s|%s set for exactly the shown fields|%d' % (fn.qname, d.name, n))
+                else:
+                    rep.bad('SHAPE', fn.qname, 'shown-fields-flag', 'the "some field is shown" flag `%s` is set under %s (expected exactly: this field is not ignored): '
+                            'the refusal of a value with nothing to show and no name no longer matches what is shown' % (d.name, [term_s(a[1], 50) if len(a) > 1 else a for a in (inner or [])] or 'no condition'),
+                            fn.file, asg.line)
 
 
 def check_unsafe_parser(cx, rep):
